@@ -28,7 +28,9 @@ pub fn export(db: &DbIndex) -> Index {
         modules: export_modules(db),
         types: export_types(db),
         globals: export_globals(db),
-        config: db.get_emmyrc().clone(),
+        // `Emmyrc` contains hash maps (severity overrides, special symbols): going through
+        // `serde_json::Value`, whose objects are ordered by key, makes the output reproducible
+        config: serde_json::to_value(db.get_emmyrc()).unwrap_or_default(),
     }
 }
 
